@@ -32,7 +32,10 @@ func init() {
 			"(none, empty requirement, undeclared scheme, one/two schemes, alternatives) × all 16 (reads body, verdict) vectors of two callbacks × missing callback × skip-defaults × multi-error; " +
 			"(B) one parameter: 3 locations × 5 schema types × 4 defaults × 6 presences × 3 explode settings × required × skip-defaults, plus pairs; " +
 			"(C) body schemas from a grammar (objects with defaulted / nullable / readOnly / required properties, nested objects, arrays of objects, allOf/oneOf/anyOf over a branch pool) × a pool of bodies; " +
-			"then a seeded random stream combining random schemas (depth ≤ 3), schema-directed values, random parameters and security. " +
+			"(D) 14 Content-Type headers (parameters, case, +json family, text/plain, unknown, empty) × 9 declared content sets (exact, with parameters, wildcards, several, none, schema-less) × 5 bodies; " +
+			"(E) path-item parameters × 6 kinds of operation-level redeclaration × presence × ExcludeRequestQueryParams; (F) parameter schemas whose type and default sit inside allOf; (G) parameters described by content; " +
+			"every block is additionally run with Content-Type parameters and with document-level security in turn; " +
+			"then a seeded random stream combining random schemas (depth ≤ 3, structured defaults), schema-directed values, random path-item and operation parameters, media types and security. " +
 			"A case is non-trivial when the model reports at least one non-default branch.",
 		Exhaustive: true,
 		Gen:        genC13,
@@ -46,6 +49,8 @@ func init() {
 			"defaults are scalars or arrays of scalars (an object default is inserted by reference and would be mutated inside the shared document: that is C15's subject)",
 			"ContentLength is compared only when the incoming value was known (≥ 0); an unchanged body that is re-encoded compares equal as JSON",
 			"authentication callbacks either leave the body alone or read it to the end",
+			"media types other than application/json are generated only with composition-free schemas (whether a default set inside a discarded oneOf/anyOf candidate triggers the re-encoding is not modelled; only application/json tolerates an unnecessary re-encoding)",
+			"parameters described by content have scalar schemas and the single media type application/json",
 		},
 	})
 }
@@ -129,17 +134,29 @@ func c13ParamJSON(pm map[string]any) map[string]any {
 	default:
 		sch["type"] = ty
 	}
+	if jbool(pm, "viaAllOf") {
+		// the typed schema (with its own default, if any) is an allOf member; the outer schema only carries `default`
+		inner := sch
+		if d, ok := pm["allOfDflt"]; ok && d != nil {
+			inner["default"] = d
+		}
+		sch = map[string]any{"allOf": []any{inner}}
+	}
 	if d, ok := pm["dflt"]; ok && d != nil {
 		sch["default"] = d
 	}
 	p := map[string]any{"name": jstr(pm, "name"), "in": jstr(pm, "in"), "schema": sch}
+	if jbool(pm, "content") {
+		delete(p, "schema")
+		p["content"] = map[string]any{"application/json": map[string]any{"schema": sch}}
+	}
 	if jbool(pm, "required") || jstr(pm, "in") == "path" {
 		p["required"] = true
 	}
 	if jbool(pm, "allowEmpty") {
 		p["allowEmptyValue"] = true
 	}
-	if e, ok := pm["explode"].(bool); ok {
+	if e, ok := pm["explode"].(bool); ok && !jbool(pm, "content") {
 		p["explode"] = e
 	}
 	return p
@@ -162,23 +179,46 @@ func c13Build(c map[string]any) (*c13Env, error) {
 	if len(params) > 0 {
 		op["parameters"] = params
 	}
+	var secReqs []any
 	if sec["reqs"] != nil {
-		reqs := []any{}
+		secReqs = []any{}
 		for _, r := range jlist(sec["reqs"]) {
 			m := map[string]any{}
 			for _, n := range jlist(r) {
 				m[n.(string)] = []any{}
 			}
-			reqs = append(reqs, m)
+			secReqs = append(secReqs, m)
 		}
-		op["security"] = reqs
+		if !jbool(sec, "docLevel") {
+			op["security"] = secReqs
+		}
 	}
 	if jbool(bs, "present") {
-		mt := map[string]any{}
-		if bs["schema"] != nil {
-			mt["schema"] = bs["schema"]
+		content := map[string]any{}
+		if l, ok := bs["content"].([]any); ok {
+			for _, e := range l {
+				mt := map[string]any{}
+				if sc := jmap(e)["schema"]; sc != nil {
+					mt["schema"] = sc
+				}
+				content[jstr(jmap(e), "key")] = mt
+			}
+		} else {
+			mt := map[string]any{}
+			if bs["schema"] != nil {
+				mt["schema"] = bs["schema"]
+			}
+			content["application/json"] = mt
 		}
-		op["requestBody"] = map[string]any{"required": jbool(bs, "required"), "content": map[string]any{"application/json": mt}}
+		op["requestBody"] = map[string]any{"required": jbool(bs, "required"), "content": content}
+	}
+	pathItem := map[string]any{"post": op}
+	if pps := jlist(c["pathParams"]); len(pps) > 0 {
+		l := []any{}
+		for _, p := range pps {
+			l = append(l, c13ParamJSON(jmap(p)))
+		}
+		pathItem["parameters"] = l
 	}
 	schemes := map[string]any{}
 	for _, n := range jlist(sec["declared"]) {
@@ -186,8 +226,11 @@ func c13Build(c map[string]any) (*c13Env, error) {
 	}
 	docj := map[string]any{
 		"openapi": "3.0.0", "info": map[string]any{"title": "t", "version": "1"},
-		"paths":      map[string]any{"/x/{id}": map[string]any{"post": op}},
+		"paths":      map[string]any{"/x/{id}": pathItem},
 		"components": map[string]any{"securitySchemes": schemes},
+	}
+	if secReqs != nil && jbool(sec, "docLevel") {
+		docj["security"] = secReqs
 	}
 	raw, err := json.Marshal(docj)
 	if err != nil {
@@ -310,6 +353,7 @@ func runC13(c0 hx.Case) any {
 		MultiError:                 jbool(opts, "multi"),
 		ExcludeRequestBody:         jbool(opts, "excludeBody"),
 		ExcludeReadOnlyValidations: jbool(opts, "roDisabled"),
+		ExcludeRequestQueryParams:  jbool(opts, "excludeQuery"),
 	}
 	if jbool(sec, "hasFunc") {
 		o.AuthenticationFunc = func(ctx context.Context, ai *openapi3filter.AuthenticationInput) error {
@@ -591,6 +635,8 @@ func cmpC13(c0 hx.Case, impl any, reply map[string]any) hx.Verdict {
 			if !c13StoreEq(s1, s2) {
 				isDiff = append(isDiff, fmt.Sprintf("a second validation changed the parameters: %s → %s", c13StoreStr(s1), c13StoreStr(s2)))
 			}
+		} else if jbool(spec, "mustAccept") {
+			isDiff = append(isDiff, fmt.Sprintf("a request that is valid (security, parameters, body against its schema) is rejected instead of being forwarded with its defaults: %v", p1["err"]))
 		} else if hasBody && origIsJSON {
 			// rejected: the body is the original one, or (multi-error mode: the body part passed) the defaulted one
 			if bv := bodyVal(p1); bv != origCanon && !(jstr(spec, "bodyExpected") == "value" && bv == c13ValText(spec["body"])) {
